@@ -481,13 +481,13 @@ func init() {
 	}
 
 	Checks["C07"] = func(c *Ctx) {
-		fam := &LightFamily{Nmax: pick(c, 6, 8), Prop: "C07"}
+		fam := &LightFamily{Nmax: pick(c, 7, 8), Prop: "C07"}
 		c.Cov.Rule = "explicit-state BFS over light-client histories: state (N, alive, cached); transition = block(deletion subset of the live leaves, addition count with N<=Nmax, every subset of the additions to remember), executed as Stump.Update + Proof.Update on a client holding only stump, proof and hashes, starting from the empty proof; after every transition the held (hash,position) pairs, the canonical proof hashes, acceptance by Verify and equality with a full Pollard prover's proof are compared with the reference forest; non-trivial = distinct concrete client state with a dead leaf"
 		c.Cov.Bound["Nmax"] = fam.Nmax
 		BFS(c, fam, 0)
 	}
 	Checks["C11"] = func(c *Ctx) {
-		fam := &LightFamily{Nmax: pick(c, 7, 9), Prop: "C11", RemMode: "none"}
+		fam := &LightFamily{Nmax: pick(c, 9, 11), Prop: "C11", RemMode: "none"}
 		c.Cov.Rule = "explicit-state BFS over stump histories (every deletion subset x every addition count, N<=Nmax); for every transition the UpdateData returned by Stump.Update is compared field by field with the reference model's derived oracles (empty roots consumed by the binary carry in order of destruction and post-block coordinates; every pre-block path position of the deleted targets with its post-deletion subtree hash; every added leaf and both children of every node created by the additions); non-trivial = distinct stump state with a dead leaf"
 		c.Cov.Bound["Nmax"] = fam.Nmax
 		BFS(c, fam, 0)
